@@ -48,6 +48,13 @@ pub enum COp {
     FetchErr { k: u64 },
     /// Start a fetch, insert the key before the fetch task runs, then run everything.
     FetchThenInsert { k: u64 },
+    /// A lookup-only fetch (what `HybridCache::get` issues: an optional fetch — the disk lookup — and no
+    /// required fetch) whose optional fetch misses: the leader hands `None` to its waiters and drops the
+    /// in-flight entry's key clone.
+    LookupMiss { k: u64 },
+    /// The same lookup-only leader joined, before its task runs, by a `get_or_fetch` caller: the leader runs
+    /// the donated fetch after its own lookup missed.
+    LookupJoinedByFetch { k: u64 },
 }
 
 #[derive(Debug, Clone, Serialize, Deserialize)]
@@ -182,6 +189,40 @@ fn run_seq(job: &C16Job, ops: &[COp], res: &mut ShardResult) -> Vec<(String, Str
                 }
                 COp::EvictAll => c2.evict_all(),
                 COp::DropH { slot } => drop_slot = Some(slot),
+                COp::LookupMiss { k } | COp::LookupJoinedByFetch { k } => {
+                    use futures_util::FutureExt;
+                    let id = next_id;
+                    let fut = c2.get_or_fetch_inner(
+                        &DK(k),
+                        || {
+                            let b: foyer_memory::OptionalFetchBuilder<DK, DV, foyer_memory::CacheProperties, ()> =
+                                Box::new(|_: &mut ()| async { Ok(None::<foyer_memory::FetchTarget<DK, DV, foyer_memory::CacheProperties>>) }.boxed());
+                            Some(b)
+                        },
+                        || None,
+                        (),
+                        &foyer_common::spawn::Spawner::current(),
+                    );
+                    let joiner = if matches!(op, COp::LookupJoinedByFetch { .. }) {
+                        Some(c2.get_or_fetch(&DK(k), || async move { Ok::<DV, anyhow::Error>(DV(enc_value(id, 1, false))) }))
+                    } else {
+                        None
+                    };
+                    let h = sim::spawn_labelled("lookup-caller".into(), async move {
+                        let mut fut = std::pin::pin!(fut);
+                        let r = std::future::poll_fn(|cx| fut.as_mut().poll_inner(cx)).await;
+                        drop(r);
+                    });
+                    let h2 = joiner.map(|j| {
+                        sim::spawn_labelled("fetch-caller".into(), async move {
+                            let r = j.await;
+                            drop(r);
+                        })
+                    });
+                    sim::run_until_stalled(10_000);
+                    drop(h);
+                    drop(h2);
+                }
                 COp::Fetch { k } | COp::FetchErr { k } | COp::FetchThenInsert { k } => {
                     let id = next_id;
                     let fail = matches!(op, COp::FetchErr { .. });
@@ -276,6 +317,8 @@ fn alphabet(capacity: usize) -> Vec<COp> {
         COp::Fetch { k: 5 },
         COp::FetchErr { k: 5 },
         COp::FetchThenInsert { k: 5 },
+        COp::LookupMiss { k: 5 },
+        COp::LookupJoinedByFetch { k: 5 },
     ]
 }
 
